@@ -151,6 +151,13 @@ class Module:
             add("." + n.attr)
         elif isinstance(n, ast.ImportFrom) and any(a.name == "*" for a in n.names):
             add("star import")
+        elif isinstance(n, ast.ClassDef) and any(isinstance(m_, ast.FunctionDef) and m_.name in ("__getattr__", "__getattribute__", "__setattr__", "__delattr__", "__get__", "__set__")
+                                                 for m_ in n.body):
+            hooks = [m_.name for m_ in n.body if isinstance(m_, ast.FunctionDef) and m_.name in ("__getattr__", "__getattribute__", "__setattr__", "__delattr__", "__get__", "__set__")]
+            # attribute access on instances of this class runs user code: what `self.x` means is not what the analysis assumes
+            self.forbidden_in.append((n.lineno, "attribute hook %s in class %s" % (", ".join(hooks), n.name), "%s.%s.*" % (self.name, n.name)))
+            if n.decorator_list:
+                self.forbidden_in.append((n.lineno, "class decorator on %s" % n.name, "%s.%s.*" % (self.name, n.name)))
         elif isinstance(n, (ast.FunctionDef, ast.ClassDef)) and n.decorator_list:
             for d in n.decorator_list:
                 dn = dotted_of(d.func if isinstance(d, ast.Call) else d) or "?"
